@@ -6,9 +6,9 @@ SOURCE = {}
 CONTRACTS = []
 
 
-def harness(name, params, src, requires=None, loops=None, lemmas=None, ghost_params=None):
+def harness(name, params, src, requires=None, loops=None, lemmas=None, ghost_params=None, raises=None):
     SOURCE["harness." + name] = src.strip("\n") + "\n"
-    CONTRACTS.append(dict(name="harness." + name, params=params, requires=requires or {}, ensures={}, raises={}, returns="none",
+    CONTRACTS.append(dict(name="harness." + name, params=params, requires=requires or {}, ensures={}, raises=raises or {}, returns="none",
                           loops=loops or {}, lemmas=lemmas or [], variant_of="harness", ghost_params=ghost_params or {}))
 
 
@@ -303,3 +303,70 @@ def %s(bits, accessor, start_index, shuffles, k, R, rank, n):
 for _sh in (False, True):
     for _vt in (False, True):
         c01_normal(_sh, _vt)
+
+
+# ---------------------------------------------------------------------------------------------------------------- C02 (chain, thresholds 2..4)
+SUCC_K = "(u % ipow(4, k - 1)) * 4 + j"
+def c02_chain(shuffled):
+  nm = "c02_chain" + ("_table" if shuffled else "")
+  sh = "shuffles" if shuffled else "None"
+  rq = {"order": "k >= 1", "threshold": "2 <= t and t <= 4", "start": "start_index < ipow(4, k)"}
+  if shuffled:
+    rq["table"] = "is_table(shuffles, k)"
+  harness(nm, {"f": "obj:AbstractFilter", "t": "nat", "bits": "nd_bits", "start_index": "nat", "w": "nat", "shuffles": "mat(ipow(4, k), 4)" if shuffled else "none"}, '''
+def ''' + nm + '''(f, k, t, bits, start_index, w, shuffles):
+    ipow_mono(4, 0, k - 1)
+    mask = find_vertices(k, f)
+    S = [0] * ipow(4, k)
+    desc, accessor = connect_coding_graph(k, mask, t)
+    dv = 0
+    while dv < ipow(4, k):
+        mark(dv)
+        assert implies(desc[dv] != 0, deg(accessor, dv) >= 2), "retained-vertices-branch"
+        dv += 1
+    cut(forall(lambda u: forall(lambda j: accessor[u][j] == ite(desc[u] != 0 and desc[''' + SUCC_K + '''] != 0, ''' + SUCC_K + ''', -1), 0, 4), 0, ipow(4, k), lambda u: accessor[u]),
+        forall(lambda u: (desc[u] != 0) == (accessor[u][0] >= 0 or accessor[u][1] >= 0 or accessor[u][2] >= 0 or accessor[u][3] >= 0), 0, ipow(4, k), lambda u: accessor[u]),
+        forall(lambda v: implies(desc[v] != 0, mask[v] != 0), 0, ipow(4, k)),
+        forall(lambda v: implies(desc[v] != 0, deg(accessor, v) >= 2), 0, ipow(4, k), lambda v: desc[v]),
+        forall(lambda i: (mask[i] != 0) == accepts(f, i, k), 0, ipow(4, k)),
+        len(desc) == ipow(4, k), len(mask) == ipow(4, k), ipow(4, k) == 4 * ipow(4, k - 1), ipow(4, k - 1) >= 1,
+        forall(lambda v: desc[v] == 0 or desc[v] == 1, 0, len(desc)))
+    R = desc
+    rank = [0] * ipow(4, k)
+    if desc[start_index] != 0:
+        mark(start_index)
+        assert is_accessor(accessor, k), "generated-graph-is-an-accessor"
+        s = encode(bits, accessor, start_index, False, 0, ''' + sh + ''')
+        m = len(s)
+        prefix = number_to_dna(start_index, k)
+        cut(forall(lambda u: forall(lambda j: accessor[u][j] == ite(desc[u] != 0 and desc[''' + SUCC_K + '''] != 0, ''' + SUCC_K + ''', -1), 0, 4), 0, ipow(4, k), lambda u: accessor[u]),
+            forall(lambda v: implies(desc[v] != 0, mask[v] != 0), 0, ipow(4, k)),
+            forall(lambda i: (mask[i] != 0) == accepts(f, i, k), 0, ipow(4, k)),
+            forall(lambda p: enc_step(accessor, ''' + sh + ''', encode_gq, encode_vtx, s, p), 0, m, lambda p: s[p]),
+            len(encode_vtx) == m + 1, encode_vtx[0] == start_index, desc[start_index] != 0, is_accessor(accessor, k), len(desc) == ipow(4, k),
+            len(mask) == ipow(4, k), m >= 0, ipow(4, k) == 4 * ipow(4, k - 1), ipow(4, k - 1) >= 1,
+            len(prefix) == k, is_dna(prefix), dnav(prefix, 0, k) == start_index)
+        full = prefix + s
+        pv_ext(A(codes(full)), 0, P(full, 0), A(codes(prefix)), 0, P(prefix, 0), k, 4)
+        i = 0
+        while i < m and i < w:
+            mark(code(s[i]))
+            assert full[k + i] == s[i] and codes(full)[k + i] == code(s[i]) and 0 <= code(s[i]) and code(s[i]) <= 3, "entering-nucleotide"
+            assert encode_vtx[i + 1] == (encode_vtx[i] % ipow(4, k - 1)) * 4 + code(s[i]), "next-vertex-is-the-shift-successor"
+            window_shift(A(codes(full)), 0, P(full, i), k)
+            i += 1
+        if w <= m:
+            assert accepts(f, dnav(full, w, w + k), k), "every window of kmer(start) + strand is accepted by the filter"
+''', requires=rq, ghost_params={"k": "nat"},
+        loops={1: dict(invariant={"range": "0 <= dv <= ipow(4, k)",
+                                  "branching-so-far": "forall(lambda v: implies(desc[v] != 0, deg(accessor, v) >= 2), 0, dv, lambda v: desc[v])"},
+                       variant="ipow(4, k) - dv"),
+               2: dict(invariant={
+            "range": "0 <= i <= m and (i <= w or w < 0) and len(full) == k + m and is_dna(full, 0, k + i)",
+            "window-is-the-vertex": "dnav(full, i, i + k) == encode_vtx[i]",
+            "vertex-is-retained": "desc[encode_vtx[i]] != 0 and 0 <= encode_vtx[i] and encode_vtx[i] < ipow(4, k)"}, variant="m - i")},
+        lemmas=["pv_store_frame"], raises={"ValueError": None})
+
+
+c02_chain(False)
+c02_chain(True)
